@@ -52,10 +52,24 @@ fn snippet(r: &mut Rng, kind: u64) -> (Vec<Op>, &'static str) {
         21 => (vec![I32Const(0), I32Const(0), Mem(0x36, 0, 3)], "snip:store-align-too-big-or-no-memory"),
         22 => (vec![I32Const(0), Mem(0x31, 0, 0), Plain(0x1a)], "snip:i64.load8_u-ok-if-memory"),
         23 => (vec![I32Const(0), Mem(0x31, 0, 1), Plain(0x1a)], "snip:i64.load8_u-align1"),
-        _ => (vec![Plain(0x00), Else, End], "snip:else-without-if"),
+        24 => (vec![Plain(0x00), Else, End], "snip:else-without-if"),
+        // ---- branches that target a LOOP WITH A RESULT TYPE: its label type is [] (its end type is not)
+        25 => (vec![Block(None), Loop(Some(VT::I32)), I32Const(0), BrTable(vec![0], 1), End, Plain(0x1a), End], "snip:br_table-loop(result)+empty-block-ok"),
+        26 => (vec![Block(Some(VT::I32)), Loop(Some(VT::I32)), I32Const(7), I32Const(0), BrTable(vec![0], 1), End, End, Plain(0x1a)], "snip:br_table-loop(result)-vs-block(result)-mismatch"),
+        27 => (vec![Block(Some(VT::I32)), Loop(Some(VT::I32)), I32Const(7), I32Const(0), BrTable(vec![1], 0), End, End, Plain(0x1a)], "snip:br_table-default-loop(result)-arm-block(result)-mismatch"),
+        28 => (vec![Loop(Some(VT::I32)), Loop(Some(VT::I64)), I32Const(1), BrTable(vec![0, 1, 0], 1), End, Plain(0x1a), I32Const(1), End, Plain(0x1a)], "snip:br_table-two-loops-different-results-ok"),
+        29 => (vec![Block(None), Loop(Some(VT::I64)), I32Const(1), BrIf(1), I32Const(0), BrIf(0), I64Const(5), End, Plain(0x1a), End], "snip:br_if-loop(result)-ok"),
+        30 => (vec![Block(Some(VT::I32)), Loop(Some(VT::I32)), I32Const(9), I32Const(0), BrIf(1), End, End, Plain(0x1a)], "snip:br_if-block(result)-inside-loop(result)-ok"),
+        31 => (vec![Block(Some(VT::I32)), Loop(Some(VT::I32)), I32Const(0), BrIf(1), I32Const(5), End, End, Plain(0x1a)], "snip:br_if-block(result)-missing-value-in-loop"),
+        32 => (vec![Loop(Some(VT::I64)), I32Const(1), End, Plain(0x1a)], "snip:loop(result)-fallthrough-type-mismatch"),
+        33 => (vec![Block(None), Loop(Some(VT::I32)), I32Const(1), BrIf(1), Br(1), End, Plain(0x1a), End], "snip:br-out-of-loop(result)-ok"),
+        34 => (vec![Block(Some(VT::I64)), Loop(Some(VT::I32)), I32Const(1), Br(1), End, Plain(0x1a), I64Const(0), End, Plain(0x1a)], "snip:br-block(i64)-from-loop-with-i32"),
+        35 => (vec![Block(None), Block(Some(VT::I32)), Loop(Some(VT::I32)), I32Const(3), I32Const(2), BrTable(vec![0, 2], 2), End, End, Plain(0x1a), End], "snip:br_table-loop(result)+outer-empty-block-ok(value discarded)"),
+        _ => (vec![Block(Some(VT::I32)), Loop(None), I32Const(3), I32Const(2), BrTable(vec![0], 1), End, I32Const(4), End, Plain(0x1a)], "snip:br_table-loop(empty)-vs-block(result)-mismatch"),
     }
 }
-pub const N_SNIPPETS: u64 = 25;
+pub const N_SNIPPETS: u64 = 37;
+pub fn snippet_at(r: &mut Rng, k: u64) -> (Vec<Op>, &'static str) { snippet(r, k) }
 
 /// Apply one instruction-level mutation to function `fi`. Returns the mutation name.
 pub fn mutate_instr(r: &mut Rng, m: &mut Module, fi: usize) -> String {
@@ -68,7 +82,7 @@ pub fn mutate_instr(r: &mut Rng, m: &mut Module, fi: usize) -> String {
     let body = &mut m.funcs[fi].body;
     let len = body.len();
     for _attempt in 0..12 {
-        let k = r.below(22);
+        let k = r.below(26);
         match k {
             0 | 1 => {
                 let ps = positions(body, |o| match o { Op::Plain(b) => swap_plain(*b).is_some(), Op::I32Const(_) | Op::I64Const(_) => true, _ => false });
